@@ -68,6 +68,11 @@ func (h *huffmanOnly) encodeBlock(final bool, flush bool) error {
 		return err
 	}
 
+	if h.offset == 0 {
+		// nothing pending: a Flush only needs its sync marker
+		return nil
+	}
+
 	bytesFreq(&h.hist, h.buffer[:h.offset])
 	h.hist.reduceCounts()
 	h.hist.literalCodes[256] = 1
@@ -81,7 +86,7 @@ func (h *huffmanOnly) encodeBlock(final bool, flush bool) error {
 	for num < h.offset {
 		h.buf.Sync()
 		num += optimizedEncodeBytes(&h.hist, h.buffer[num:h.offset], &h.buf)
-		if num == h.offset && flush {
+		if num == h.offset && final {
 			h.buf.flushLastByte()
 		}
 		_, err := h.w.Write(h.buf.output[:h.buf.idx])
